@@ -55,6 +55,10 @@ def gen_cases(tier, seed):
     for i in range(12 if tier == 'quick' else 120):
         cases.append({'scenario': 'enqueue-timeouts', 'mode': 'async' if i % 4 == 3 else 'sync', 'capacity': 1 + (i % 3 == 2), 'victims': 3 + i % 3,
                       'site': i % 4 != 1, 'seed': rng.randrange(1 << 30)})
+    # the deadline of a stream element (stream's timeout is 'interpreted the same as in call')
+    for i in range(8 if tier == 'quick' else 64):
+        cases.append({'scenario': 'stream-deadline', 'mode': 'async' if i % 2 else 'sync', 'return_exceptions': i % 4 < 2, 'n': 8,
+                      'late': [[0], [0, 3], [2, 3, 6], [5]][(i // 4 + i) % 4], 'seed': rng.randrange(1 << 30)})
     return cases
 
 
@@ -363,9 +367,105 @@ def _enqueue_timeouts(case):
     return res
 
 
+def _stream_deadline(case):
+    """stream(timeout=0.2): elements that need 2 s are not ready by their deadline -> TimeoutError in their place (or raised, when exceptions
+    are not returned), for the stream's consumer just as for a caller of call(); the other elements, a later call and the shutdown are unaffected."""
+    import asyncio
+
+    from mpservice._common import TimeoutError as MpTimeout
+    from mpservice.mpserver import AsyncServer, Server, ThreadServlet
+
+    viol = []
+    obs = {'lifetimes': 1, 'stream_deadline_lifetimes': 1, 'stream_elements_past_deadline': 0, 'witness_requests': 0, 'final_calls': 0, 'abandoned_calls': 0}
+    late = set(case['late'])
+    n = case['n']
+    toks = [tok(1, i, 2.0 if i in late else 0.0) for i in range(n)]
+    rexc = case['return_exceptions']
+    is_async = case['mode'] == 'async'
+    server = (AsyncServer if is_async else Server)(ThreadServlet(ST.TagWorker, tag='A', num_threads=len(late) + 2), capacity=64)
+    out, box = [], {}
+
+    def sync_body():
+        with server:
+            t0 = time.monotonic()
+            try:
+                for y in server.stream(iter(toks), return_exceptions=rexc, timeout=0.2):
+                    out.append(y)
+            except BaseException as e:  # noqa: BLE001
+                box['raised'] = e
+            box['stream_s'] = time.monotonic() - t0
+            box['final'] = server.call(tok(999, 0, 0.001), timeout=30)
+        box['backlog'] = server.backlog
+
+    async def async_body():
+        async with server:
+            t0 = time.monotonic()
+
+            async def src():
+                for t in toks:
+                    yield t
+
+            try:
+                async for y in server.stream(src(), return_exceptions=rexc, timeout=0.2):
+                    out.append(y)
+            except BaseException as e:  # noqa: BLE001
+                box['raised'] = e
+            box['stream_s'] = time.monotonic() - t0
+            box['final'] = await server.call(tok(999, 0, 0.001), timeout=30)
+        box['backlog'] = server.backlog
+
+    try:
+        watch.run_bounded((lambda: asyncio.run(async_body())) if is_async else sync_body, 60, 'stream with element deadlines')
+    except watch.Hang as h:
+        viol.append({'mech': 'stream-deadline/hang', 'msg': h.what, 'stacks': h.stacks})
+        return {'violations': viol, 'obs': obs, 'exit_after': True, 'nontrivial': True, 'sig': repr(case)}
+    inconclusive = None
+    first_late = min(late)
+    upto = n if rexc else first_late
+    for i, y in enumerate(out[:upto]):
+        if i in late:
+            if isinstance(y, (MpTimeout, TimeoutError)):
+                obs['stream_elements_past_deadline'] += 1
+                obs['abandoned_calls'] += 1
+            else:
+                viol.append({'mech': 'stream-deadline/late-element-not-timed-out', 'msg': f'{case["mode"]} stream(timeout=0.2): element {i} needs 2 s; the consumer got {str(y)[:120]!r} after '
+                             f'{box.get("stream_s", 0):.2f} s in total instead of TimeoutError (call() with the same timeout raises TimeoutError)'})
+                break
+        elif y != ('A', toks[i]):
+            if isinstance(y, (MpTimeout, TimeoutError)):
+                inconclusive = f'a fast element timed out (loaded machine?): element {i}'
+            else:
+                viol.append({'mech': 'stream-deadline/wrong-output', 'msg': f'element {i}: {str(y)[:200]!r}'})
+            break
+    if not viol and inconclusive is None:
+        if len(out) != upto:
+            viol.append({'mech': 'stream-deadline/wrong-number-of-outputs', 'msg': f'{len(out)} outputs, expected {upto} (return_exceptions={rexc}, late elements {sorted(late)}); raised: {box.get("raised")!r}'})
+        elif not rexc and not isinstance(box.get('raised'), (MpTimeout, TimeoutError)):
+            viol.append({'mech': 'stream-deadline/late-element-not-timed-out', 'msg': f'{case["mode"]} stream(timeout=0.2, return_exceptions=False): element {first_late} needs 2 s; the stream '
+                         f'{"raised " + repr(box.get("raised")) if box.get("raised") is not None else "ended normally"} after {box.get("stream_s", 0):.2f} s instead of raising TimeoutError'})
+        elif not rexc:
+            obs['stream_elements_past_deadline'] += 1
+            obs['abandoned_calls'] += 1
+        elif box.get('raised') is not None:
+            viol.append({'mech': 'stream-deadline/unexpected-error', 'msg': f'stream raised {box["raised"]!r}'})
+    obs['final_calls'] += 1
+    obs['witness_requests'] += 1
+    if not viol and box.get('final') != ('A', tok(999, 0, 0.001)):
+        viol.append({'mech': 'abandon/witness-wrong', 'msg': f'the call after the stream got {box.get("final")!r}'})
+    if not viol and box.get('backlog') != 0:
+        viol.append({'mech': 'abandon/backlog-after-exit', 'msg': f'backlog {box.get("backlog")} after exit'})
+    r = {'violations': viol, 'obs': obs, 'nontrivial': True, 'sig': repr((case['mode'], rexc, sorted(late), n)),
+         'sample': {'scenario': 'stream-deadline', 'mode': case['mode'], 'return_exceptions': rexc, 'late': sorted(late), 'outputs': len(out), 'stream_seconds': round(box.get('stream_s', 0), 2)}}
+    if inconclusive and not viol:
+        r['inconclusive'] = inconclusive
+    return r
+
+
 def run_case(case):
     if case['scenario'] == 'mass-abandon':
         return _mass_abandon(case)
+    if case['scenario'] == 'stream-deadline':
+        return _stream_deadline(case)
     if case['scenario'] == 'enqueue-timeouts':
         return _enqueue_timeouts(case)
     _PAD['pad'] = 'x' * case['pad'] if case.get('pad') else None
